@@ -139,6 +139,17 @@ func NewEx(conf *Config, fset *token.FileSet, files ...*ast.File) (ret Result, e
 	if onConflict == nil {
 		onConflict = onConflictDefault
 	}
+	// reject left recursion (also through nullable prefixes): Var.First panics with
+	// RecursiveError when a rule is reachable from itself without consuming a token.
+	for _, f := range files {
+		for _, decl := range f.Decls {
+			if r, ok := decl.(*ast.Rule); ok {
+				if v := rules[r.Name.Name]; v.Elem != nil {
+					v.First(nil)
+				}
+			}
+		}
+	}
 	for _, item := range ctx.choices {
 		item.m.CheckConflicts(func(firsts [][]any, i, at int) {
 			onConflict(fset, item.c, firsts, i, at)
